@@ -39,7 +39,8 @@ fn readback(case: &VarDctCase, image: &jxl_oxide::JxlImage) -> Result<(), (Strin
     use jxlref::vardct::*;
     let f = &case.frame;
     let err = |what: &str, detail: String| (format!("readback-{what}"), detail);
-    let frame = image.frame(0).ok_or_else(|| err("no-frame", String::new()))?;
+    let frame = image.frame(case.main_frame).ok_or_else(|| err("no-frame", String::new()))?;
+    let use_lf_frame = case.fh.use_lf_frame();
     let lf_global = frame.try_parse_lf_global::<i32>().ok_or_else(|| err("lf-global-missing", String::new()))?.map_err(|e| err("lf-global", e.to_string()))?;
     let v = lf_global.vardct.as_ref().ok_or_else(|| err("not-vardct", String::new()))?;
     if (v.quantizer.global_scale, v.quantizer.quant_lf) != (f.global_scale, f.quant_lf) {
@@ -75,14 +76,21 @@ fn readback(case: &VarDctCase, image: &jxl_oxide::JxlImage) -> Result<(), (Strin
             .try_parse_lf_group::<i32>(Some(v), lf_global.gmodular.ma_config(), None, lg as u32)
             .ok_or_else(|| err("lf-group-missing", format!("lf group {lg}")))?
             .map_err(|e| err("lf-group", format!("lf group {lg}: {e}")))?;
-        let lc = g.lf_coeff.as_ref().ok_or_else(|| err("lf-coeff-missing", String::new()))?;
-        if lc.extra_precision as u32 != spec.extra_precision {
-            return Err(err("extra-precision", format!("{} vs {}", lc.extra_precision, spec.extra_precision)));
-        }
-        let chans = lc.lf_quant.image().ok_or_else(|| err("lf-image-missing", String::new()))?.image_channels();
-        for k in 0..3 {
-            if !grid_eq(&chans[k], &spec.lf[k]) {
-                return Err(err("lf-quant", format!("lf group {lg} coded channel {k} differs")));
+        if use_lf_frame {
+            // the LF comes from the LF frame: the LF group carries no coefficients
+            if g.lf_coeff.is_some() {
+                return Err(err("lf-coeff-present", format!("lf group {lg} of a frame with use_lf_frame")));
+            }
+        } else {
+            let lc = g.lf_coeff.as_ref().ok_or_else(|| err("lf-coeff-missing", String::new()))?;
+            if lc.extra_precision as u32 != spec.extra_precision {
+                return Err(err("extra-precision", format!("{} vs {}", lc.extra_precision, spec.extra_precision)));
+            }
+            let chans = lc.lf_quant.image().ok_or_else(|| err("lf-image-missing", String::new()))?.image_channels();
+            for k in 0..3 {
+                if !grid_eq(&chans[k], &spec.lf[k]) {
+                    return Err(err("lf-quant", format!("lf group {lg} coded channel {k} differs")));
+                }
             }
         }
         let hm = g.hf_meta.as_ref().ok_or_else(|| err("hf-meta-missing", String::new()))?;
@@ -190,7 +198,7 @@ impl Check for VSmoke {
         Plan { cases: if tier == Tier::Quick { 3000 } else { 60_000 }, max_len: 4096 }
     }
     fn rule(&self) -> String {
-        "choice sequence -> single-frame VarDCT codestream written by the independent reference writer (all 27 transform types in legal tilings, hf_mul, sparse/dense quantised coefficients, generated LF image / CfL maps / sharpness, default and custom HfBlockContext / LfChannelCorrelation / LfChannelDequantization / dequantisation-matrix encodings / coefficient orders, 1..4 passes, XYB / stored RGB / YCbCr 4:4:4, Gaborish and EPF variants, extra channels, upsampling, several groups and LF groups, permuted TOC) -> jxl-oxide. Helper check: the stream is accepted, frame 0 renders, every plane has the image size, every sample is finite, and a second render gives bit-identical samples.".into()
+        "choice sequence -> VarDCT codestream (one keyframe) written by the independent reference writer (all 27 transform types in legal tilings, hf_mul, sparse/dense quantised coefficients, generated LF image / CfL maps / sharpness, default and custom HfBlockContext / LfChannelCorrelation / LfChannelDequantization / dequantisation-matrix encodings / coefficient orders, 1..4 passes, XYB / stored RGB / YCbCr 4:4:4, Gaborish and EPF variants, extra channels, upsampling, several groups and LF groups, permuted TOC; noise parameters, spline dictionaries, patch dictionaries fed by a ReferenceOnly frame (Modular or VarDCT) written in front, LF taken from one or two levels of LF frames (Modular or VarDCT) written in front) -> jxl-oxide. Helper check: the stream is accepted, frame 0 renders, every plane has the image size, every sample is finite, and a second render gives bit-identical samples.".into()
     }
     fn assumptions(&self) -> Vec<String> {
         vec!["RAW dequantisation matrices only for square matrix shapes (orientation of the coded image for rectangular shapes not established)".into(), "chroma-subsampled frames use DCT8 only and skip adaptive LF smoothing".into()]
@@ -213,6 +221,18 @@ impl Check for VSmoke {
                     "noorders" => opts.allow_custom_orders = false,
                     "nolz" => opts.allow_hf_lz77 = false,
                     "nosub" => opts.allow_subsampling = false,
+                    "nonoise" => opts.noise = 0,
+                    "nosplines" => opts.splines = 0,
+                    "nopatches" => opts.patches = 0,
+                    "nolf" => opts.lf_frames = 0,
+                    "noise" => opts.noise = 256,
+                    "splines" => opts.splines = 256,
+                    "patches" => opts.patches = 256,
+                    "lf" => opts.lf_frames = 256,
+                    "lf2" => {
+                        opts.lf_frames = 256;
+                        opts.lf_two_levels = 256;
+                    }
                     "small" => {
                         opts.boundary = 0;
                         opts.big_square = 0;
